@@ -129,7 +129,10 @@ fn gen_content(r: &mut Rng, big: bool) -> Content {
             }
         }
     }
-    let nlab = r.range(0, 8);
+    // mostly a handful of labels; one content in 16 has a large table (sorting algorithms change
+    // behaviour with size) with several labels on most addresses
+    let many = r.chance(1, 16);
+    let nlab = if many { r.range(40, 120) } else { r.range(0, 8) };
     let names: Vec<&str> = (0..r.range(1, 4)).map(|_| *r.pick(POOL)).collect();
     for _ in 0..nlab {
         let a = match r.weighted(&[65, 15, 10, 10]) {
@@ -145,7 +148,13 @@ fn gen_content(r: &mut Rng, big: bool) -> Content {
             }
         };
         let name = if r.chance(2, 3) { names[r.below(names.len())] } else { *r.pick(POOL) };
-        c.labels.entry(a).or_default().push(name.to_string());
+        if many {
+            // distinct names, so that any reordering inside a bucket is visible
+            let serial: usize = c.labels.values().map(|v| v.len()).sum();
+            c.labels.entry(a).or_default().push(format!("{}{}", name, serial));
+        } else {
+            c.labels.entry(a).or_default().push(name.to_string());
+        }
     }
     c
 }
